@@ -1,5 +1,5 @@
 #!/usr/bin/env python3
-"""C16 -- painted paths become shapes with the right points, class and graphics state (DESIGN.md 3.C16)."""
+"""C16 -- painted paths become shapes with the right points, class and graphics state (DESIGN.md section 4, C16)."""
 import os
 import sys
 from fractions import Fraction as Fr
@@ -39,7 +39,7 @@ MANIFEST_ENTRY = {
             "(C05_qQ_restores). Known finding: cs/CS do not reset the colour to its initial value.",
     "note": "Trusted: Coq kernel, hand models tied by differential runs, harness generator. A lone 'm' painted on its own "
             "yields a one-point curve (reported, the property does not settle it).",
-    "design_ref": "DESIGN.md 3.C16",
+    "design_ref": "DESIGN.md section 4, C16",
 }
 
 PAINT = ["S", "s", "f", "f*", "B", "B*", "b", "b*", "n"]
